@@ -55,40 +55,51 @@ def build_script(rng, chain, prog):
     L = {"a": "bindl", "s": 1, "nack": True, "twcc": twcc, "rtx": rng.random() < 0.5, "fec": rng.random() < 0.6}
     R = {"a": "bindm", "s": 2, "nack": True, "twcc": rng.choice([7, 7, 0]), "pli": True}
     steps = [{"a": "bindw"}, {"a": "bindr"}, L, R]
-    wseq, rseq, tw, ident = rng.choice([100, 65000, 30000]), rng.choice([200, 40000]), 500, 0
-    sent = []
+    locs, rems = [1], [2]
+    if rng.random() < 0.5:       # a second local stream that negotiated differently (transport-cc / RTX / FEC / NACK)
+        steps.append({"a": "bindl", "s": 3, "nack": rng.random() < 0.5, "twcc": 0 if twcc else 7, "rtx": rng.random() < 0.5,
+                      "fec": rng.random() < 0.4})
+        locs.append(3)
+    if rng.random() < 0.4:       # a second remote stream
+        steps.append({"a": "bindm", "s": 4, "nack": rng.random() < 0.5, "twcc": rng.choice([7, 0]), "pli": rng.random() < 0.5})
+        rems.append(4)
+    wseq = {1: rng.choice([100, 65000, 30000]), 3: rng.choice([7, 65530])}
+    rseq = {2: rng.choice([200, 40000]), 4: rng.choice([9, 65533])}
+    tw, ident = 500, 0
+    sent = {1: [], 3: []}
     for a in prog:
         ident += 1
         ln, shape = rng.choice([0, 1, 7, 40, 200, 1200, 1460]), rng.choice([0, 0, 1, 2, 3, 5, 6, 7])
+        ls, rs = rng.choice(locs), rng.choice(rems)
         if a in ("wok", "wfail"):
-            wseq += 1
-            steps.append({"a": "wrtp", "s": 1, "w": wseq % 65536, "id": ident, "len": ln, "shape": shape, "fail": a == "wfail"})
+            wseq[ls] += 1
+            steps.append({"a": "wrtp", "s": ls, "w": wseq[ls] % 65536, "id": ident, "len": ln, "shape": shape, "fail": a == "wfail"})
             if a == "wok":
-                sent.append(wseq % 65536)
+                sent[ls].append(wseq[ls] % 65536)
         elif a == "rok":
-            rseq += 1
+            rseq[rs] += 1
             tw += 1
-            steps.append({"a": "rrtp", "s": 2, "w": rseq % 65536, "id": ident, "len": ln, "shape": rng.choice([0, 1, 3]),
+            steps.append({"a": "rrtp", "s": rs, "w": rseq[rs] % 65536, "id": ident, "len": ln, "shape": rng.choice([0, 1, 3]),
                           "tw": tw, "fail": False})
             if rng.random() < 0.3:      # leave a gap so that NACK/feedback generators have something to say
-                rseq += 1
+                rseq[rs] += 1
                 tw += 1
         elif a == "rfail":               # the failed packet would be a jump ahead if it were accounted
-            steps.append({"a": "rrtp", "s": 2, "w": (rseq + 7) % 65536, "id": ident, "len": ln, "shape": 0,
+            steps.append({"a": "rrtp", "s": rs, "w": (rseq[rs] + 7) % 65536, "id": ident, "len": ln, "shape": 0,
                           "tw": tw + 7, "fail": True})
         elif a in ("cwok", "cwfail"):
-            steps.append({"a": "wrtcp", "s": 2, "kind": rng.choice(["pli", "sr", "nack"]), "nums": [5, 6], "id": ident,
+            steps.append({"a": "wrtcp", "s": rs, "kind": rng.choice(["pli", "sr", "nack"]), "nums": [5, 6], "id": ident,
                           "fail": a == "cwfail"})
         elif a == "crnack":
-            nums = [rng.choice(sent)] if sent else [wseq % 65536]
-            steps.append({"a": "rrtcp", "s": 1, "kind": "nack", "nums": nums + [(wseq + 9) % 65536], "id": ident, "fail": False})
+            nums = [rng.choice(sent[ls])] if sent[ls] else [wseq[ls] % 65536]
+            steps.append({"a": "rrtcp", "s": ls, "kind": "nack", "nums": nums + [(wseq[ls] + 9) % 65536], "id": ident, "fail": False})
         elif a == "crsr":
-            steps.append({"a": "rrtcp", "s": 2, "kind": "sr", "id": ident, "fail": False})
+            steps.append({"a": "rrtcp", "s": rs, "kind": "sr", "id": ident, "fail": False})
         elif a == "crfail":
-            steps.append({"a": "rrtcp", "s": 1, "kind": "nack", "nums": [wseq % 65536], "id": ident, "fail": True})
+            steps.append({"a": "rrtcp", "s": ls, "kind": "nack", "nums": [wseq[ls] % 65536], "id": ident, "fail": True})
         if rng.random() < 0.35:
             steps.append({"a": "wait", "ms": rng.choice([1, 3, 6])})
-    steps += [{"a": "wait", "ms": 5}, {"a": "unbindl", "s": 1}, {"a": "unbindm", "s": 2}, {"a": "close"}]
+    steps += [{"a": "wait", "ms": 5}] + [{"a": "unbindl", "s": x} for x in locs] + [{"a": "unbindm", "s": x} for x in rems] + [{"a": "close"}]
     return {"members": members, "steps": steps, "settle": 10}
 
 
